@@ -304,3 +304,43 @@ func init() {
 }
 
 func (a Args) Fn() string { return a.Str("fn") }
+
+// buildSigned: the signing half of SignedProbe on its own - the specification's skeleton with a fresh identity key, an
+// authorised transient key (when the skeleton has an offline block) and valid signatures in the slots it names.
+func buildSigned(s *Session, a Args) ([]byte, string) {
+	rng := rand.New(rand.NewSource(s.Seed*7919 + int64(a.Int("stream"))))
+	base := append([]byte{}, a.Bytes("base")...)
+	idslot, sigslot := slotOf(a, "idkey"), slotOf(a, "sig")
+	st := a.Int("st")
+	prefix := a.Bytes("prefix")
+	id, err := genKey(st, rng)
+	if err != nil {
+		return nil, errStr(err)
+	}
+	if idslot.n > 0 && !put(base, idslot, id.pub) {
+		return nil, "identity key slot does not fit the key"
+	}
+	final := id
+	if a.Has("offline") {
+		off := sub(a, "offline")
+		offKey, offSig := slot{off.Int("keyoff"), off.Int("keylen")}, slot{off.Int("sigoff"), off.Int("siglen")}
+		tkey, err := genKey(off.Int("tst"), rng)
+		if err != nil {
+			return nil, errStr(err)
+		}
+		if !put(base, offKey, tkey.pub) {
+			return nil, "transient key slot"
+		}
+		osig, err := id.sign(base[off.Int("from"):off.Int("to")])
+		if err != nil || !put(base, offSig, osig) {
+			return nil, "offline signature: " + errStr(err)
+		}
+		final = tkey
+	}
+	msg := append(append([]byte{}, prefix...), base[:sigslot.off]...)
+	fsig, err := final.sign(msg)
+	if err != nil || !put(base, sigslot, fsig) {
+		return nil, "final signature: " + errStr(err)
+	}
+	return base, ""
+}
